@@ -806,3 +806,284 @@ theorem processVariables_print (cfg : Cfg) (hs : CfgSane2 cfg) (ctx : Ctx) (htex
       passSimple_print cfg hs.toCfgSane ctx htext _ (tokC_wfp cfg ctx htext _ hwp)]
 
 end Operon.Tmpl
+
+namespace Operon.Tmpl
+open Operon.Ribosome
+
+/-! ### `findSub` (the lazy `.*?` up to a closing tag) on printed tokens -/
+
+theorem findSub_skip (p u rest : Str) (h : ∀ i, i < u.length → stripPrefix p (u.drop i ++ rest) = none) :
+    findSub p (u ++ rest) = (findSub p rest).map (fun x => (u ++ x.1, x.2)) := by
+  induction u with
+  | nil => simp only [List.nil_append]; cases hf : findSub p rest <;> simp
+  | cons c u ih =>
+    have h0 := h 0 (by simp)
+    simp only [List.drop_zero, List.cons_append] at h0
+    have ih' := ih (fun i hi => by have := h (i + 1) (by simp; omega); simpa using this)
+    simp only [List.cons_append, findSub, h0, ih']
+    cases hf : findSub p rest <;> simp
+
+theorem findSub_hit (p rest : Str) (hp : p ≠ []) : findSub p (p ++ rest) = some ([], rest) := by
+  cases p with
+  | nil => exact absurd rfl hp
+  | cons a p =>
+    have := stripPrefix_append (a :: p) rest
+    simp only [List.cons_append] at this ⊢
+    simp [findSub, this]
+
+/-- split a token list at the first occurrence of `t0` -/
+def splitTok (t0 : Tok) : List Tok → Option (List Tok × List Tok)
+  | [] => none
+  | t :: r => if t = t0 then some ([], r) else (splitTok t0 r).map (fun x => (t :: x.1, x.2))
+
+/-- GENERIC.  Searching the printed form of a tag `t0` in a printed token list finds the first `t0` TOKEN. -/
+theorem findSub_print (cfg : Cfg) (hs : CfgSane cfg) (t0 : Tok) (hne : t0.print ≠ [])
+    (hm : NeedsLL (stripM t0.print)) (ts : List Tok) (hw : ∀ t ∈ ts, t.wfp cfg)
+    (hat : ∀ t ∈ ts, t.isTag = true → ∀ rest, stripM t0.print (t.print ++ rest) = (viewIs t0 t).map (fun u => (u, rest)))
+    (hv : t0.isTag = true) :
+    findSub t0.print (printToks ts) = (splitTok t0 ts).map (fun x => (printToks x.1, printToks x.2)) := by
+  have strip_of : ∀ s, stripM t0.print s = none → stripPrefix t0.print s = none := by
+    intro s h; simp only [stripM] at h; cases hh : stripPrefix t0.print s with
+    | none => rfl
+    | some r => rw [hh] at h; cases h
+  induction ts with
+  | nil => cases h : t0.print with
+    | nil => exact absurd h hne
+    | cons a p => rfl
+  | cons t ts ih =>
+    have hwt := hw t (by simp)
+    have ih' := ih (fun x hx => hw x (by simp [hx])) (fun x hx => hat x (by simp [hx]))
+    have hpt : printToks (t :: ts) = t.print ++ printToks ts := by simp [printToks]
+    rw [hpt]
+    by_cases ht : t = t0
+    · subst ht
+      simp [splitTok, findSub_hit _ _ hne, printToks]
+    · simp only [splitTok, ht, if_false]
+      rw [findSub_skip, ih']
+      · cases splitTok t0 ts <;> simp [printToks]
+      · intro i hi
+        apply strip_of
+        match i with
+        | 0 =>
+          simp only [List.drop_zero]
+          cases htag : t.isTag
+          · rcases print_shape cfg hs t hwt with ⟨_, hp⟩ | ⟨h1, _⟩
+            · simpa using plain_none _ hm t.print (printToks ts) hp 0 hi
+            · rw [htag] at h1; cases h1
+          · have h0 := hat t (by simp) htag (printToks ts)
+            simpa [viewIs, ht] using h0
+        | i + 1 => exact inner_none cfg hs _ hm t hwt _ (i + 1) (by omega) hi
+
+/-! the three closing / separating tags -/
+
+theorem needsLL_stripTag (p : Nat) (pre : Str) : NeedsLL (stripM (123 :: 123 :: p :: pre)) :=
+  needsLL_of_strip _ p pre (fun s h => by simp [stripM, h])
+
+theorem stripEndIf_at (cfg : Cfg) (hs : CfgSane cfg) (t : Tok) (hw : t.wfp cfg) (htag : t.isTag = true) (rest : Str) :
+    stripM Tok.ifC.print (t.print ++ rest) = (viewIs .ifC t).map (fun u => (u, rest)) := by
+  have third : ∀ (d : Nat) (s : Str), d ≠ 47 → stripM ENDIF (123 :: 123 :: d :: s) = none := by
+    intro d s hd
+    have : (47 = d) = False := by simp; omega
+    simp [stripM, ENDIF, stripPrefix, this]
+  have word : ∀ n : Str, WordName cfg n → ∀ s, stripM ENDIF (123 :: 123 :: (n ++ s)) = none := by
+    intro n hn s
+    obtain ⟨c, tl, rfl, hc⟩ := word_head hn
+    exact third c _ (fun e => by rw [e, hs.slash] at hc; cases hc)
+  cases t with
+  | text s => cases htag
+  | val s => cases htag
+  | ifC => simp [Tok.print, stripM, stripPrefix_append, viewIs]
+  | eachC => simp [Tok.print, stripM, ENDIF, ENDEACH, stripPrefix, viewIs]
+  | var n => simpa [Tok.print, tagOf, LL, viewIs] using word n hw _
+  | pipe n a => simpa [Tok.print, pipeTag, LL, viewIs] using word n hw.1 _
+  | dot => simpa [Tok.print, tagOf, kDot, LL, viewIs] using third 46 _ (by decide)
+  | opt n => simpa [Tok.print, OPTH, viewIs] using third 63 _ (by decide)
+  | inc n => simpa [Tok.print, INCH, viewIs] using third 62 _ (by decide)
+  | ifO ws n => simpa [Tok.print, IFH, viewIs] using third 35 _ (by decide)
+  | els => simpa [Tok.print, ELSE, viewIs] using third 35 _ (by decide)
+  | eachO ws n => simpa [Tok.print, EACHH, viewIs] using third 35 _ (by decide)
+
+theorem stripEndEach_at (cfg : Cfg) (hs : CfgSane cfg) (t : Tok) (hw : t.wfp cfg) (htag : t.isTag = true) (rest : Str) :
+    stripM Tok.eachC.print (t.print ++ rest) = (viewIs .eachC t).map (fun u => (u, rest)) := by
+  have third : ∀ (d : Nat) (s : Str), d ≠ 47 → stripM ENDEACH (123 :: 123 :: d :: s) = none := by
+    intro d s hd
+    have : (47 = d) = False := by simp; omega
+    simp [stripM, ENDEACH, stripPrefix, this]
+  have word : ∀ n : Str, WordName cfg n → ∀ s, stripM ENDEACH (123 :: 123 :: (n ++ s)) = none := by
+    intro n hn s
+    obtain ⟨c, tl, rfl, hc⟩ := word_head hn
+    exact third c _ (fun e => by rw [e, hs.slash] at hc; cases hc)
+  cases t with
+  | text s => cases htag
+  | val s => cases htag
+  | eachC => simp [Tok.print, stripM, stripPrefix_append, viewIs]
+  | ifC => simp [Tok.print, stripM, ENDIF, ENDEACH, stripPrefix, viewIs]
+  | var n => simpa [Tok.print, tagOf, LL, viewIs] using word n hw _
+  | pipe n a => simpa [Tok.print, pipeTag, LL, viewIs] using word n hw.1 _
+  | dot => simpa [Tok.print, tagOf, kDot, LL, viewIs] using third 46 _ (by decide)
+  | opt n => simpa [Tok.print, OPTH, viewIs] using third 63 _ (by decide)
+  | inc n => simpa [Tok.print, INCH, viewIs] using third 62 _ (by decide)
+  | ifO ws n => simpa [Tok.print, IFH, viewIs] using third 35 _ (by decide)
+  | els => simpa [Tok.print, ELSE, viewIs] using third 35 _ (by decide)
+  | eachO ws n => simpa [Tok.print, EACHH, viewIs] using third 35 _ (by decide)
+
+theorem findEndIf_print (cfg : Cfg) (hs : CfgSane cfg) (ts : List Tok) (hw : ∀ t ∈ ts, t.wfp cfg) :
+    findSub ENDIF (printToks ts) = (splitTok .ifC ts).map (fun x => (printToks x.1, printToks x.2)) :=
+  findSub_print cfg hs .ifC (by simp [Tok.print, ENDIF]) (needsLL_stripTag 47 _) ts hw
+    (fun t ht htag rest => stripEndIf_at cfg hs t (hw t ht) htag rest) rfl
+
+theorem findEndEach_print (cfg : Cfg) (hs : CfgSane cfg) (ts : List Tok) (hw : ∀ t ∈ ts, t.wfp cfg) :
+    findSub ENDEACH (printToks ts) = (splitTok .eachC ts).map (fun x => (printToks x.1, printToks x.2)) :=
+  findSub_print cfg hs .eachC (by simp [Tok.print, ENDEACH]) (needsLL_stripTag 47 _) ts hw
+    (fun t ht htag rest => stripEndEach_at cfg hs t (hw t ht) htag rest) rfl
+
+end Operon.Tmpl
+
+namespace Operon.Tmpl
+open Operon.Ribosome
+
+/-! ### the conditional scanner: `lazyIf` on printed tokens -/
+
+theorem stripElse_at (cfg : Cfg) (hs : CfgSane cfg) (t : Tok) (hw : t.wfp cfg) (htag : t.isTag = true) (rest : Str) :
+    stripM Tok.els.print (t.print ++ rest) = (viewIs .els t).map (fun u => (u, rest)) := by
+  have third : ∀ (d : Nat) (s : Str), d ≠ 35 → stripM ELSE (123 :: 123 :: d :: s) = none := by
+    intro d s hd
+    have : (35 = d) = False := by simp; omega
+    simp [stripM, ELSE, stripPrefix, this]
+  have word : ∀ n : Str, WordName cfg n → ∀ s, stripM ELSE (123 :: 123 :: (n ++ s)) = none := by
+    intro n hn s
+    obtain ⟨c, tl, rfl, hc⟩ := word_head hn
+    exact third c _ (fun e => by rw [e, hs.hash] at hc; cases hc)
+  cases t with
+  | text s => cases htag
+  | val s => cases htag
+  | els => simp [Tok.print, stripM, stripPrefix_append, viewIs]
+  | ifO ws n => simp [Tok.print, stripM, IFH, ELSE, stripPrefix, viewIs]
+  | eachO ws n => simp [Tok.print, stripM, EACHH, ELSE, stripPrefix, viewIs]
+  | var n => simpa [Tok.print, tagOf, LL, viewIs] using word n hw _
+  | pipe n a => simpa [Tok.print, pipeTag, LL, viewIs] using word n hw.1 _
+  | dot => simpa [Tok.print, tagOf, kDot, LL, viewIs] using third 46 _ (by decide)
+  | opt n => simpa [Tok.print, OPTH, viewIs] using third 63 _ (by decide)
+  | inc n => simpa [Tok.print, INCH, viewIs] using third 62 _ (by decide)
+  | ifC => simpa [Tok.print, ENDIF, viewIs] using third 47 _ (by decide)
+  | eachC => simpa [Tok.print, ENDEACH, viewIs] using third 47 _ (by decide)
+
+theorem stripM_none {old s : Str} (h : stripM old s = none) : stripPrefix old s = none := by
+  simp only [stripM] at h
+  cases hh : stripPrefix old s with
+  | none => rfl
+  | some r => rw [hh] at h; cases h
+
+theorem stripM_some {old s r : Str} (h : stripM old s = some ((), r)) : stripPrefix old s = some r := by
+  simp only [stripM] at h
+  cases hh : stripPrefix old s with
+  | none => rw [hh] at h; cases h
+  | some r' => rw [hh] at h; simp at h; rw [h]
+
+theorem lazyIf_step_none (c : Nat) (s : Str) (h1 : stripPrefix ELSE (c :: s) = none)
+    (h2 : stripPrefix ENDIF (c :: s) = none) :
+    lazyIf (c :: s) = (lazyIf s).map (fun x => (c :: x.1, x.2.1, x.2.2)) := by
+  rw [lazyIf]; simp only [h1, h2]; cases lazyIf s <;> simp
+
+theorem lazyIf_step_end (c : Nat) (s rest : Str) (h1 : stripPrefix ELSE (c :: s) = none)
+    (h2 : stripPrefix ENDIF (c :: s) = some rest) : lazyIf (c :: s) = some ([], none, rest) := by
+  rw [lazyIf]; simp only [h1, h2]
+
+theorem lazyIf_step_else (c : Nat) (s r : Str) (h1 : stripPrefix ELSE (c :: s) = some r)
+    (h2 : stripPrefix ENDIF (c :: s) = none) :
+    lazyIf (c :: s) = match findSub ENDIF r with
+      | some x => some ([], some x.1, x.2)
+      | none => (lazyIf s).map (fun x => (c :: x.1, x.2.1, x.2.2)) := by
+  rw [lazyIf]; simp only [h1, h2]
+  cases findSub ENDIF r with
+  | some x => rfl
+  | none => cases lazyIf s <;> simp
+
+theorem lazyIf_skip (u rest : Str) (h1 : ∀ i, i < u.length → stripPrefix ELSE (u.drop i ++ rest) = none)
+    (h2 : ∀ i, i < u.length → stripPrefix ENDIF (u.drop i ++ rest) = none) :
+    lazyIf (u ++ rest) = (lazyIf rest).map (fun x => (u ++ x.1, x.2.1, x.2.2)) := by
+  induction u with
+  | nil => simp only [List.nil_append]; cases hf : lazyIf rest <;> simp
+  | cons c u ih =>
+    have h10 := h1 0 (by simp)
+    have h20 := h2 0 (by simp)
+    simp only [List.drop_zero, List.cons_append] at h10 h20
+    have ih' := ih (fun i hi => by have := h1 (i + 1) (by simp; omega); simpa using this)
+      (fun i hi => by have := h2 (i + 1) (by simp; omega); simpa using this)
+    simp only [List.cons_append, lazyIf, h10, h20, ih']
+    cases hf : lazyIf rest <;> simp
+
+def lazyTok : List Tok → Option (List Tok × Option (List Tok) × List Tok)
+  | [] => none
+  | t :: r =>
+    match (if t = .els then (splitTok .ifC r).map (fun x => (([] : List Tok), some x.1, x.2)) else none) with
+    | some x => some x
+    | none => if t = .ifC then some ([], none, r) else (lazyTok r).map (fun x => (t :: x.1, x.2.1, x.2.2))
+
+def prT (x : List Tok × Option (List Tok) × List Tok) : Str × Option Str × Str :=
+  (printToks x.1, x.2.1.map printToks, printToks x.2.2)
+
+/-- the lazy tail of the conditional regex on printed tokens: up to the first `{{/if}}` TOKEN, split at the first
+    `{{#else}}` TOKEN before it -/
+theorem lazyIf_print (cfg : Cfg) (hs : CfgSane cfg) (ts : List Tok) (hw : ∀ t ∈ ts, t.wfp cfg) :
+    lazyIf (printToks ts) = (lazyTok ts).map prT := by
+  induction ts with
+  | nil => rfl
+  | cons t ts ih =>
+    have hwt := hw t (by simp)
+    have hws : ∀ x ∈ ts, x.wfp cfg := fun x hx => hw x (by simp [hx])
+    have ih' := ih hws
+    have hpt : printToks (t :: ts) = t.print ++ printToks ts := by simp [printToks]
+    rw [hpt]
+    have inner1 : ∀ i, 0 < i → i < t.print.length → stripPrefix ELSE (t.print.drop i ++ printToks ts) = none :=
+      fun i h0 hi => stripM_none (inner_none cfg hs _ (needsLL_stripTag 35 _) t hwt _ i h0 hi)
+    have inner2 : ∀ i, 0 < i → i < t.print.length → stripPrefix ENDIF (t.print.drop i ++ printToks ts) = none :=
+      fun i h0 hi => stripM_none (inner_none cfg hs _ (needsLL_stripTag 47 _) t hwt _ i h0 hi)
+    rcases print_shape cfg hs t hwt with ⟨hnt, hp⟩ | ⟨htag, c, tail, hp, hc, htl⟩
+    · -- text / value: skipped
+      have hne1 : t ≠ .els := by intro e; rw [e] at hnt; cases hnt
+      have hne2 : t ≠ .ifC := by intro e; rw [e] at hnt; cases hnt
+      rw [lazyIf_skip _ _ (fun i hi => stripM_none (plain_none _ (needsLL_stripTag 35 _) _ _ hp i hi))
+        (fun i hi => stripM_none (plain_none _ (needsLL_stripTag 47 _) _ _ hp i hi)), ih']
+      simp only [lazyTok, hne1, hne2, if_false]
+      cases lazyTok ts <;> simp [prT, printToks]
+    · have hE : stripM ELSE (t.print ++ printToks ts) = (viewIs .els t).map (fun u => (u, printToks ts)) :=
+        stripElse_at cfg hs t hwt htag (printToks ts)
+      have hC : stripM ENDIF (t.print ++ printToks ts) = (viewIs .ifC t).map (fun u => (u, printToks ts)) :=
+        stripEndIf_at cfg hs t hwt htag (printToks ts)
+      have hsk : lazyIf (123 :: c :: (tail ++ printToks ts))
+          = (lazyIf (printToks ts)).map (fun x => (123 :: c :: (tail ++ x.1), x.2.1, x.2.2)) := by
+        have := lazyIf_skip (123 :: c :: tail) (printToks ts)
+          (fun i hi => by
+            have := inner1 (i + 1) (by omega) (by rw [hp]; simpa using hi); rw [hp] at this; simpa using this)
+          (fun i hi => by
+            have := inner2 (i + 1) (by omega) (by rw [hp]; simpa using hi); rw [hp] at this; simpa using this)
+        simpa using this
+      have hcons : t.print ++ printToks ts = 123 :: 123 :: c :: (tail ++ printToks ts) := by rw [hp]; simp
+      rw [hcons] at hE hC ⊢
+      by_cases he : t = .els
+      · subst he
+        have hE' := stripM_some (r := printToks ts) (by simpa [viewIs] using hE)
+        have hC' := stripM_none (by simpa [viewIs] using hC)
+        rw [lazyIf_step_else _ _ _ hE' hC', findEndIf_print cfg hs ts hws]
+        simp only [lazyTok, if_true]
+        cases hsp : splitTok .ifC ts with
+        | some x => simp [prT, printToks]
+        | none =>
+          simp only [Option.map]
+          rw [hsk, ih']
+          have : ¬ (Tok.els = Tok.ifC) := by intro h; cases h
+          simp only [this, if_false]
+          cases lazyTok ts <;> simp [prT, printToks, hp]
+      · have hE' := stripM_none (by simpa [viewIs, he] using hE)
+        by_cases hc' : t = .ifC
+        · subst hc'
+          have hC' := stripM_some (r := printToks ts) (by simpa [viewIs] using hC)
+          rw [lazyIf_step_end _ _ _ hE' hC']
+          simp [lazyTok, prT, printToks]
+        · have hC' := stripM_none (by simpa [viewIs, hc'] using hC)
+          rw [lazyIf_step_none _ _ hE' hC', hsk, ih']
+          simp only [lazyTok, he, hc', if_false]
+          cases lazyTok ts <;> simp [prT, printToks, hp]
+
+end Operon.Tmpl
